@@ -7,6 +7,8 @@ TAB = ['silk/tables_NLSF_CB_NB_MB.c', 'silk/tables_NLSF_CB_WB.c', 'silk/tables_o
 
 import os, importlib.util
 _s = importlib.util.spec_from_file_location('vt_glue', os.path.join(VERIF, 'props', '_glue.py')); _g = importlib.util.module_from_spec(_s); _s.loader.exec_module(_g)
+import os as _os, importlib.util as _ilu
+_s2 = _ilu.spec_from_file_location('vt_glue2', _os.path.join(VERIF, 'props', '_glue.py')); _g2 = _ilu.module_from_spec(_s2); _s2.loader.exec_module(_g2)
 def obligations():
     L = []
     conds = ['CODE_INDEPENDENTLY', 'CODE_INDEPENDENTLY_NO_LTP_SCALING', 'CODE_CONDITIONALLY']
@@ -26,4 +28,9 @@ def obligations():
         L.append(_g.glue_ob(Ob, 'H3.glue', fsi, dur, 'quick'))
     for fsi, dur in [(f, d) for f in range(5) for d in range(9) if (f, d) not in [(0, 6), (4, 3), (2, 8), (1, 5)]][::4]:
         L.append(_g.glue_ob(Ob, 'H3.glue', fsi, dur, 'thorough'))
+    for ns, nc, fsi, dur, tier in ((2, 1, 4, 3, 'quick'), (3, 0, 2, 2, 'thorough'), (2, 2, 0, 7, 'thorough')):
+        L.append(_g2.msenc_ob(Ob, 'H4.multistream_concatenation', ns, nc, fsi, dur, tier))
+    # H5: the per-frame glue (C05-H2 harness): TOC of what was coded, redundant frame inside the packet, whole-frame NaN guard
+    for mode, fsi, dur, ch, ld, maxb, tier in ((1002, 4, 0, 2, 1, 40, 'quick'), (1002, 3, 3, 2, 0, 24, 'thorough'), (1001, 3, 3, 2, 0, 24, 'thorough'), (1000, 2, 5, 2, 0, 80, 'thorough')):
+        L.append(_g2.frame_ob(Ob, 'H5.frame_glue', mode, fsi, dur, ch, ld, tier, maxb=maxb, budget=(900 if tier == 'quick' else 1500)))
     return L
